@@ -89,3 +89,19 @@ package twofactor
 //@   ensures[C13] never_touches_session: !emits Sess.Put(_, _)
 //@   ensures[C18] no_panic: !panics
 //@   ensures[C18] save_error_outcome: each Store.Save(_) -> ?e => e != nil ==> (result == e && !emits Respond(_, _, _))
+//
+//@ -- The pages that are only shown (GET) --------------------------------------------------
+//@ func (*Recovery).GetRegen
+//@   property C13
+//@   -- C13 (round 11 coverage review): a page that is only shown changes nothing that counts - no
+//@   -- record is saved, no session key is written, no cookie set, no text message sent (a GET is
+//@   -- what a cross-site link or image can make the owner's browser do)
+//@   ensures[C13] get_changes_nothing: !emits Store.Save(_) && !emits Sess.Put(_, _) && !emits Cook.Put(_, _) && !emits SMS.Send(_, _) && !emits Mail.Send(_)
+//@
+//@ func (EmailVerify).GetStart
+//@   property C13
+//@   -- C13 (round 11 coverage review): a page that is only shown changes nothing that counts - no
+//@   -- record is saved, no session key is written, no cookie set, no text message sent (a GET is
+//@   -- what a cross-site link or image can make the owner's browser do)
+//@   ensures[C13] get_changes_nothing: !emits Store.Save(_) && !emits Sess.Put(_, _) && !emits Cook.Put(_, _) && !emits SMS.Send(_, _) && !emits Mail.Send(_)
+//@
